@@ -172,6 +172,7 @@ struct Ctx {
   double budget_s = 1e9;
   Journal journal;
   std::function<Result(const Case&)> oracle;
+  std::function<std::string(const Case&)> pretty;   // optional human-readable rendering of a case for evidence samples
 
   uint64_t evaluations = 0, nontrivial = 0, skipped = 0, seq = 0;
   bool distinct_by_construction = true;  // a campaign that may repeat cases clears this
@@ -197,7 +198,9 @@ struct Ctx {
              (unsigned long long)c.aux[1], (unsigned long long)c.aux[2], (unsigned long long)c.aux[3]);
     std::string h = hex(c.data);
     if (h.size() > 160) h = h.substr(0, 160) + "...(" + std::to_string(c.data.size()) + "B)";
-    return std::string(b) + h;
+    std::string p = pretty ? pretty(c) : std::string();
+    if (p.size() > 400) p = p.substr(0, 400) + "...";
+    return std::string(b) + h + (p.empty() ? "" : "  = " + p);
   }
 
   // returns true if the case passed (or was skipped)
@@ -278,6 +281,8 @@ struct Driver {
   void (*run_campaigns)(Ctx&);
   // judge one case for property ctx.prop
   Result (*run_case)(const std::string& prop, const Case&);
+  // optional: render a case in words (op names) for the evidence samples
+  std::string (*pretty)(const Case&) = nullptr;
 };
 
 static inline int driver_main(int argc, char** argv, const Driver& drv) {
@@ -302,6 +307,7 @@ static inline int driver_main(int argc, char** argv, const Driver& drv) {
   }
   if (ctx.prop.empty()) { fprintf(stderr, "--prop required\n"); return 2; }
   ctx.oracle = [&](const Case& c) { return drv.run_case(ctx.prop, c); };
+  if (drv.pretty) ctx.pretty = drv.pretty;
   if (!replay.empty()) {
     Case c;
     if (!read_case_file(replay, c)) { fprintf(stderr, "cannot read %s\n", replay.c_str()); return 2; }
